@@ -45,3 +45,31 @@ def register(reg):
     c.ensure("tiles", "len(result) == (dim1 // factor1) * (dim2 // factor2)")
     c.ensure("mean of each full tile", "forall(a, 0, dim1 // factor1, forall(b, 0, " + nd2 + ", " + cell + "))")
     reg.add(c)
+
+
+def register_deredden(reg):
+    """TimeSeries.deredden (exact path): the input minus its running filter of the requested method and width."""
+    from pvc.contract import Obj, Real, Const
+    TS = "sigpyproc/timeseries.py::"
+    hdr = Obj("Header", file="sigpyproc/header.py", fields={"nsamples": Int(0), "nchans": Int(1), "tsamp": Real()})
+    ts = Obj("TimeSeries", file="sigpyproc/timeseries.py", fields={"_data": Arr("real", "f4"), "_header": hdr})
+    c = Contract(TS + "TimeSeries.deredden", props=["C14"],
+                 params={"self": ts, "method": Str(), "window": Real(), "fast": Const(False)},
+                 cases={"method": ["mean", "median"]},
+                 ghost_params={"wb": Int(1)},
+                 requires=["len(self._data) == self._header.nsamples", "self._header.nsamples >= 1", "self._header.tsamp > 0",
+                           # the window in bins: the library rounds window / tsamp to the nearest integer
+                           "window >= 0", "wb >= 1", "wb - 0.5 < window / self._header.tsamp and window / self._header.tsamp < wb + 0.5"],
+                 raises=[Raises("ValueError", when="window < 0")], ret=ts)
+    c.ensure("length", "len(result._data) == len(self._data)")
+    c.ensure("input minus its running filter", "forall(i, 0, len(self._data), result._data[i] == self._data[i] - "
+                                               "movef(method, sympad(self._data, wb // 2), i, wb))")
+    reg.add(c)
+
+
+_r_sf = register
+
+
+def register(reg):  # noqa: F811
+    _r_sf(reg)
+    register_deredden(reg)
